@@ -351,7 +351,8 @@ fn frame_raw(ws: &[u32]) -> Option<Vec<Vec<u32>>> {
 /// module is reloaded; reloading gives an equal module. Returns (violation, label, accepted).
 pub fn raw_check(id: &str, what: &str, bytes: &[u8]) -> (Option<Viol>, String, bool) {
     let rep = json!({"kind": "bytes", "bytes": hex(bytes), "seed": id, "corruption": what});
-    let class = what.split(|c| c == ':' || c == '@').next().unwrap_or("").to_string();
+    // root-cause class of the key: the seed family where it names one, else the corruption kind
+    let class = if id.contains("typed-by-a-function-local-value") { "typed-by-a-function-local-value".to_string() } else { what.split(|c| c == ':' || c == '@').next().unwrap_or("").to_string() };
     let loaded = match guarded(|| dr::load_bytes(bytes)) {
         Err(p) => return (Some(viol(format!("C01:panic@{}", crate::report::panic_class(&p)), format!("{} {}: load_bytes panics: {}", id, what, p), rep)), "panic".into(), false),
         Ok(Err(_)) => return (None, "not-loadable".into(), false),
@@ -422,7 +423,22 @@ pub fn raw_check(id: &str, what: &str, bytes: &[u8]) -> (Option<Viol>, String, b
 pub fn run(tier: Tier) -> Run {
     let mut run = Run::new("C01", tier, "exploration");
     // ---- every corrupted binary of the C03 universe the loader still accepts, against the grammar-free oracle
-    let sw = crate::checks::c03::sweep(tier, &|id, m| raw_check(id, &m.what, &m.bytes));
+    // (where the reference acceptor accepts the binary as well, the full oracle - layout-sorted reference re-encoding,
+    //  word-identical for layout-ordered input - is applied in addition to the grammar-free one)
+    let sw = crate::checks::c03::sweep(tier, &|id, m| {
+        let (v, label, acc) = raw_check(id, &m.what, &m.bytes);
+        if v.is_none() && acc {
+            if let crate::acceptor::Verdict::Accept { version, bound, insts } = crate::acceptor::accept(&m.bytes) {
+                if m.bytes.len() % 4 == 0 {
+                    let (vs, _) = check_case(&Case { id: format!("{}:{}:universe", id.split(':').next().unwrap_or(id), m.what.split(|c| c == ':' || c == '@').next().unwrap_or("")), insts, raw: Some(m.bytes[20..].chunks(4).map(|c| u32::from_le_bytes([c[0], c[1], c[2], c[3]])).collect()), version, bound });
+                    if let Some(x) = vs.into_iter().next() {
+                        return (Some(x), label, acc);
+                    }
+                }
+            }
+        }
+        (v, label, acc)
+    });
     for v in sw.viols.iter().cloned() {
         run.add(v);
     }
